@@ -1,5 +1,6 @@
 """Schema-aware generator of builder programs that are valid on a fixed SQLite schema (C07, C09).
 Schema:  t(id INTEGER PRIMARY KEY, a INT, b INT, c TEXT)   u(id INTEGER PRIMARY KEY, a INT, d INT)
+         p(id INTEGER PRIMARY KEY, k INT, v INT) with the partial unique index p_k (k) WHERE k > 0
 Statements are valid by construction (existing columns, matching arities), so a syntax error of the
 engine on a rendering is a finding, not a generator accident."""
 from vlib import hexs
@@ -9,6 +10,9 @@ CREATE TABLE t (id INTEGER PRIMARY KEY, a INT, b INT, c TEXT);
 CREATE TABLE u (id INTEGER PRIMARY KEY, a INT, d INT);
 INSERT INTO t VALUES (1, 1, 10, 'x'), (2, 2, NULL, 'y'), (3, NULL, 30, NULL), (4, 2, 10, 'X'), (5, 3, 5, 'zz'), (6, NULL, NULL, 'n');
 INSERT INTO u VALUES (1, 1, 7), (2, 2, NULL), (3, 9, 9), (4, NULL, 1), (5, NULL, NULL);
+CREATE TABLE p (id INTEGER PRIMARY KEY, k INT, v INT);
+CREATE UNIQUE INDEX p_k ON p (k) WHERE k > 0;
+INSERT INTO p VALUES (1, 1, 10), (2, 2, 20), (3, 0, 30), (4, 0, 40), (5, NULL, 50);
 """
 TABLES = {"t": ["id", "a", "b", "c"], "u": ["id", "a", "d"]}
 INT_COLS = {"t": ["id", "a", "b"], "u": ["id", "a", "d"]}
@@ -342,10 +346,33 @@ class SG:
             cs.append("(limit %d)" % r.choice([1, 2]))
         return "(delete %s)" % " ".join(cs + self.returning(tbl)), False
 
+    def upsert_partial(self):
+        """INSERT into p with a conflict target on the PARTIAL unique index p_k (k) WHERE k > 0: the target
+        needs its own WHERE (conflict-target predicate) for SQLite to match the index"""
+        r = self.r
+        rows = []
+        for _ in range(r.randrange(1, 4)):
+            rows.append("(valuespanic (val i:i32:%d) (val i:i32:%d))" % (r.choice([0, 1, 2, 3, 7]), r.choice([5, 60, 70])))
+        # the predicate of a partial-index conflict target must be a constant expression for the engine to match it
+        # with the index (a bound parameter is not comparable with the index predicate): SimpleExpr::Constant
+        tw = "(twhere (bin gt (col %s) (const i:i32:0)))" % h("k")
+        k = r.random()
+        if k < 0.45:
+            act = "(nothing)"
+        elif k < 0.75:
+            act = "(updcol %s)" % h("v")
+        else:
+            act = "(updexpr %s %s)%s" % (h("v"), self.ival(),
+                                         " (awhere (bin gt (col %s %s) (val i:i32:1)))" % (h("p"), h("id")) if r.random() < 0.5 else "")
+        return "(insert (into (t %s)) (columns %s %s) %s (onconflict (cols %s) %s %s))" % (
+            h("p"), h("k"), h("v"), " ".join(rows), h("k"), tw, act), False
+
     def statement(self):
         k = self.r.random()
         if k < 0.55:
             return self.select()
+        if k < 0.60 and not self.portable:
+            return self.upsert_partial()
         if k < 0.72:
             return self.insert()
         if k < 0.87:
